@@ -74,6 +74,15 @@ impl Property for C06 {
         if rng.chance(1, 6) {
             ops.push(BOp::SetVersion(*rng.pick(&[1u8, 1, 0, 3]), rng.below(7) as u8));
         }
+        if rng.chance(1, 500) {
+            // scale: the largest encodable instruction / strings around 65535 bytes / 65536+ typed ids
+            let op = match rng.below(3) {
+                0 => BOp::Scale(0, *rng.pick(&[65_530u32, 65_531, 65_532, 65_535, 65_536, 70_000, 262_000])),
+                1 => BOp::Scale(1, *rng.pick(&[65_531u32, 65_532, 65_533])),
+                _ => BOp::Scale(2, *rng.pick(&[65_533u32, 65_534, 65_535, 65_536, 65_540, 70_000])),
+            };
+            ops.push(op);
+        }
         let nfuncs = rng.below(4);
         for _ in 0..nfuncs {
             ops.push(BOp::BeginFunction { explicit_id: rng.chance(1, 3), control: rng.below(16) as u32 });
